@@ -80,6 +80,21 @@ func GenTree(r *lib.Rng, trunkMin, trunkMax, nbMin, nbMax, maxDepth int) TreeSpe
 	return t
 }
 
+// AddHeavyShort appends a branch that wins by weight while being shorter than the longest branch: it forks 2..4
+// blocks below the trunk tip and carries 1..2 blocks of a difficulty that outweighs everything else in the tree.
+func AddHeavyShort(t *TreeSpec, r *lib.Rng) {
+	back := r.Range(2, 4)
+	if back >= t.Trunk {
+		return
+	}
+	p := t.Trunk - 1 - back
+	depth := r.Range(1, back-1)
+	for d := 0; d < depth; d++ {
+		t.Blocks = append(t.Blocks, BlockSpec{Parent: p, Diff: 0x1d00ffff, NTx: r.Range(1, 3), Height: t.Blocks[p].Height + 1})
+		p = len(t.Blocks) - 1
+	}
+}
+
 // Ancestors returns the path genesis-exclusive .. i inclusive.
 func (t *TreeSpec) Path(i int) []int {
 	var p []int
